@@ -146,20 +146,30 @@ def run_ranks_in_children(prog, seeds, junk=None, max_rounds=40):
     raise RuntimeError("collective phase did not converge")
 
 
+def tag_repr(t):
+    """hash-seed independent text of a communication tag"""
+    if isinstance(t, frozenset):
+        return "frozenset{" + ", ".join(sorted(tag_repr(x) for x in t)) + "}"
+    if isinstance(t, tuple):
+        return "(" + ", ".join(tag_repr(x) for x in t) + ")"
+    return repr(t)
+
+
 def partition_summary(part):
-    """names and structure of a partition, as text (what must agree between processes)"""
+    """names and structure of a partition, as text (what must agree between processes): mappings and sequences in
+    their own order, set-typed fields (frozenset by declaration) sorted"""
     from vf import reflect
     lines = []
     for pid, p in part.parts.items():
-        lines.append(f"part {pid!r} needs {list(p.needed_pids)!r}")
-        lines.append(f"  user_inputs {list(p.user_input_names)!r}")
-        lines.append(f"  partition_inputs {list(p.partition_input_names)!r}")
-        lines.append(f"  outputs {list(p.output_names)!r}")
-        lines.append(f"  recvs {[(n, r.src_rank, r.comm_tag) for n, r in p.name_to_recv_node.items()]!r}")
-        lines.append(f"  sends {[(n, [(s.dest_rank, s.comm_tag) for s in ss]) for n, ss in p.name_to_send_nodes.items()]!r}")
+        lines.append(f"part {pid!r} needs {sorted(p.needed_pids, key=repr)!r}")
+        lines.append(f"  user_inputs {sorted(p.user_input_names)!r}")
+        lines.append(f"  partition_inputs {sorted(p.partition_input_names)!r}")
+        lines.append(f"  outputs {sorted(p.output_names)!r}")
+        lines.append(f"  recvs {[(n, r.src_rank, tag_repr(r.comm_tag)) for n, r in p.name_to_recv_node.items()]!r}")
+        lines.append(f"  sends {[(n, [(s.dest_rank, tag_repr(s.comm_tag)) for s in ss]) for n, ss in p.name_to_send_nodes.items()]!r}")
     lines.append(f"overall {list(part.overall_output_names)!r}")
     for n, e in part.name_to_output.items():
-        lines.append(f"output {n} = {reflect.canon(e) if hasattr(reflect, 'canon') else e!r}")
+        lines.append(f"output {n} = {reflect.canon(e)}")
     return "\n".join(lines)
 
 
